@@ -603,7 +603,31 @@ KNOWN_KEYS = {
 }
 
 
+EXTREME_UB = re.compile(r"^ubsan-(signed-integer-overflow|negation-of|.*outside-the-range-of-representable-values|.*is-outside-the-range)")
+NUM_TOKEN = re.compile(rb"(?<![A-Za-z_])[-+]?(?:\d+\.?\d*|\.\d+)(?:[eE][-+]?\d+)?|(?i:\bnan\b|\binf(?:inity)?\b)")
+
+
+def has_extreme_number(c):
+    """a numeric token with |n| >= 1e6, or a non-finite one, in the judged input (signature of finding ubsan-extreme-integer-input)"""
+    for _, p in c["ops"]:
+        t = p if isinstance(p, bytes) else p.encode()
+        name = t.decode("latin-1")
+        if name in c["files"]:
+            t = c["files"][name]
+        for m in NUM_TOKEN.finditer(t):
+            try:
+                v = float(m.group(0))
+            except ValueError:
+                continue
+            if v != v or abs(v) >= 1e6:
+                return True
+    return False
+
+
 def finding_key(key, c):
+    if EXTREME_UB.match(key) and has_extreme_number(c):
+        # pure integer-arithmetic UB (signed overflow, negation of INT_MIN, out-of-range float→int conversion) driven by an extreme number in the input
+        return "ubsan-extreme-integer-input"
     if key in KNOWN_KEYS:
         text = b" ".join(p for _, p in c["ops"]).lower()
         if b"peek" in text or b"poke" in text:
